@@ -446,6 +446,166 @@ Qed.
 
 End Nack.
 
+(* ------------------------------------------------------------------ distinct ids
+   The ids accepted into the delay queue are a sub-sequence of the ids the application
+   submitted: distinct submitted ids give distinct accepted ids. *)
+Definition tg_nodl (o : list tg_out) : bool :=
+  forallb (fun x => match x with ODelayed _ _ => false | _ => true end) o.
+
+Lemma tg_nodl_dcon : forall o, tg_nodl o = true -> tg_dcon_ids o = [].
+Proof.
+  induction o as [|x o IH]; intros H; simpl in *; auto.
+  apply andb_true_iff in H. destruct H as [Hx Ho]. destruct x; try discriminate; simpl; auto.
+Qed.
+Lemma tg_nodl_app : forall a b, tg_nodl (a ++ b) = tg_nodl a && tg_nodl b.
+Proof. intros. unfold tg_nodl. apply forallb_app. Qed.
+Lemma tg_nodl_map_nack : forall r (q : list tg_msg),
+  tg_nodl (map (fun m => ONack (tm_id m) r) q) = true.
+Proof. induction q; simpl; auto. Qed.
+
+Lemma tg_disconnected_nodl : forall s r s' o, tg_disconnected s r = (s', o) -> tg_nodl o = true.
+Proof.
+  intros s r s' o H. unfold tg_disconnected, tg_tls_close in H.
+  destruct (ts_proto _); [|destruct (ts_tls _)]; inversion H; subst; clear H;
+    rewrite !tg_nodl_app, !tg_nodl_map_nack;
+    destruct (ts_sendq s) as [|m q]; simpl; try (destruct (tm_con m)); simpl;
+    try (destruct (map _ (tg_cons (ts_delayq s)))); reflexivity.
+Qed.
+
+Lemma tg_after_event_nodl : forall s ev s' o, tg_after_event s ev = (s', o) -> tg_nodl o = true.
+Proof.
+  intros s ev s' o H. unfold tg_after_event in H. destruct ev as [e|]; [|inversion H; reflexivity].
+  destruct ((e =? tg_EV_DTLS_ERROR) || (e =? tg_EV_DTLS_CLOSED)).
+  - destruct (tg_disconnected s tg_NACK_TLS_FAILED) as [s1 o2] eqn:D. inversion H; subst.
+    rewrite tg_nodl_app, (tg_disconnected_nodl _ _ _ _ D).
+    destruct (e =? tg_EV_DTLS_CLOSED); reflexivity.
+  - inversion H; subst. destruct (e =? tg_EV_DTLS_CLOSED); reflexivity.
+Qed.
+
+Lemma tg_mfree_nodl : forall s s' o, tg_mfree s = (s', o) -> tg_nodl o = true.
+Proof.
+  intros s s' o H. unfold tg_mfree, tg_tls_close in H.
+  destruct (ts_proto s); [|destruct (ts_tls s)]; inversion H; subst; simpl;
+    try apply tg_nodl_map_nack.
+Qed.
+
+Lemma tg_maybe_free_nodl : forall s s' o, tg_maybe_free s = (s', o) -> tg_nodl o = true.
+Proof.
+  intros s s' o H. unfold tg_maybe_free in H.
+  destruct (_ && _); [eapply tg_mfree_nodl; eauto | inversion H; reflexivity].
+Qed.
+
+Section NoDupIds.
+Variable O : tg_oracle.
+Hypothesis never_ok : forall k, or_hs O k <> 0.
+
+Lemma tg_hs_call_nodl : forall s s' o r, tg_hs_call O s = (s', o, r) -> tg_nodl o = true.
+Proof.
+  intros s s' o r H. unfold tg_hs_call in H.
+  destruct (tg_do_handshake _ _) as [[ret ev] sa]. inversion H; reflexivity.
+Qed.
+
+Lemma tg_step_dcon : forall s e s' o,
+  tg_J s -> tg_app_only e -> tg_step O s e = (s', o) ->
+  tg_dcon_ids o = [] \/ exists m, e = ESend m true /\ tg_dcon_ids o = [tm_id m].
+Proof.
+  intros s e s' o J A H. pose proof J as [Jp [Jt [Je [Js [Jq [Jk Jf]]]]]].
+  unfold tg_step in H. rewrite Jf in H.
+  destruct (tg_step0 O s e) as [s1 o1] eqn:S0.
+  destruct (tg_maybe_free s1) as [s2 o2] eqn:MF. inversion H; subst; clear H.
+  pose proof (tg_nodl_dcon _ (tg_maybe_free_nodl _ _ _ MF)) as D2.
+  rewrite tg_dcon_ids_app, D2, app_nil_r.
+  destruct e; simpl in S0.
+  - (* EConnect *) left. apply tg_nodl_dcon. unfold tg_connect in S0. rewrite Jp, Jt in S0. simpl in S0.
+    destruct (tg_hs_call O _) as [[sa oa] ra] eqn:HC. pose proof (tg_hs_call_nodl _ _ _ _ HC) as Na.
+    destruct (ra =? -1).
+    + destruct (tg_disconnected _ tg_NACK_TLS_LAYER_FAILED) as [sb ob] eqn:D. inversion S0; subst.
+      rewrite tg_nodl_app, Na, (tg_disconnected_nodl _ _ _ _ D). reflexivity.
+    + inversion S0; subst. exact Na.
+  - (* ESend *) destruct app; [|contradiction].
+    unfold tg_send in S0. rewrite Jt in S0. simpl in S0.
+    destruct (ts_sock s); simpl in S0; [|inversion S0; subst; left; reflexivity].
+    unfold tg_send0 in S0. rewrite Jt in S0. simpl in S0. rewrite andb_false_r in S0.
+    rewrite (tg_J_not_est _ J) in S0. simpl in S0. unfold tg_delay_new in S0.
+    destruct (tg_in (tm_id m) (tg_ids (ts_delayq s))); simpl in S0; inversion S0; subst.
+    + left; reflexivity.
+    + simpl. destruct (tm_con m); [right; exists m; auto | left; reflexivity].
+  - (* ERecv *) left. apply tg_nodl_dcon. unfold tg_recv in S0. rewrite Jp, Jt in S0. simpl in S0.
+    destruct (ts_tls s); [|inversion S0; reflexivity].
+    unfold tg_dtls_receive in S0. simpl in S0. rewrite Je in S0.
+    destruct (tg_hs_call O _) as [[sa oa] ra] eqn:HC. pose proof (tg_hs_call_nodl _ _ _ _ HC) as Na.
+    assert (J0 : tg_J (tg_set_dtls_event s None)) by exact J.
+    destruct (tg_hs_call_law O never_ok _ _ _ _ J0 HC) as [La [Ra _]].
+    apply Z.eqb_neq in Ra. rewrite Ra in S0.
+    destruct (or_more O _ && negb (ts_sent_alert sa)).
+    + destruct (tg_hs_call O sa) as [[sb ob] rb] eqn:HC2.
+      pose proof (tg_hs_call_nodl _ _ _ _ HC2) as Nb.
+      destruct (tg_hs_call_law O never_ok _ _ _ _ (proj1 La) HC2) as [_ [Rb _]].
+      apply Z.eqb_neq in Rb. rewrite Rb in S0.
+      destruct (tg_after_event sb (ts_dtls_event sb)) as [sc oc] eqn:AE. inversion S0; subst.
+      simpl. rewrite !tg_nodl_app, Na, Nb, (tg_after_event_nodl _ _ _ _ AE). reflexivity.
+    + destruct (tg_after_event sa (ts_dtls_event sa)) as [sc oc] eqn:AE. inversion S0; subst.
+      rewrite tg_nodl_app, Na, (tg_after_event_nodl _ _ _ _ AE). reflexivity.
+  - (* ETimeout *) left. apply tg_nodl_dcon. unfold tg_timeout in S0.
+    destruct (negb _); [inversion S0; reflexivity|].
+    destruct (ts_max_retransmit _ <? ts_to_count _); [eapply tg_disconnected_nodl; eauto|].
+    destruct (tg_hs_call O _) as [[sa oa] ra] eqn:HC. pose proof (tg_hs_call_nodl _ _ _ _ HC) as Na.
+    destruct (ra <? 0).
+    + destruct (tg_disconnected sa tg_NACK_TLS_FAILED) as [sb ob] eqn:D. inversion S0; subst.
+      rewrite tg_nodl_app, Na, (tg_disconnected_nodl _ _ _ _ D). reflexivity.
+    + inversion S0; subst. exact Na.
+  - (* ERetransmit *) left. unfold tg_retransmit in S0. rewrite Jq in S0. simpl in S0.
+    inversion S0; reflexivity.
+  - left. inversion S0; reflexivity.
+  - left. apply tg_nodl_dcon. eapply tg_mfree_nodl; eauto.
+Qed.
+
+(* ids of the messages the application submitted, in order *)
+Fixpoint tg_send_ids (evs : list tg_ev) : list Z :=
+  match evs with
+  | [] => []
+  | ESend m _ :: r => tm_id m :: tg_send_ids r
+  | _ :: r => tg_send_ids r
+  end.
+
+Lemma tg_steps_dcon : forall evs s s' tr,
+  tg_R s -> Forall tg_app_only evs -> tg_steps O s evs = (s', tr) ->
+  incl (tg_dcon_ids (tg_outs tr)) (tg_send_ids evs) /\
+  (NoDup (tg_send_ids evs) -> NoDup (tg_dcon_ids (tg_outs tr))).
+Proof.
+  induction evs as [|e evs IH]; intros s s' tr R A H; simpl in H.
+  - inversion H; subst. split; [intros x []|intros; constructor].
+  - destruct (tg_step O s e) as [s1 o] eqn:S1.
+    destruct (tg_steps O s1 evs) as [s2 tr2] eqn:S2. inversion H; subst; clear H.
+    pose proof (Forall_inv A) as A1. pose proof (Forall_inv_tail A) as A2.
+    pose proof (tg_step_law' O never_ok _ _ _ _ R A1 S1) as L1.
+    destruct (IH _ _ _ (proj1 L1) A2 S2) as [I2 N2].
+    unfold tg_outs. simpl. fold (tg_outs tr2). rewrite tg_dcon_ids_app.
+    assert (D : tg_dcon_ids o = [] \/ exists m, e = ESend m true /\ tg_dcon_ids o = [tm_id m]).
+    { destruct R as [J|[F _]].
+      - eapply tg_step_dcon; eauto.
+      - unfold tg_step in S1. rewrite F in S1. inversion S1; subst. left; reflexivity. }
+    destruct D as [D|[m [E D]]]; rewrite D; simpl.
+    + split.
+      * intros x Hx. apply I2 in Hx. destruct e; simpl; auto.
+      * intros ND. apply N2. destruct e; simpl in ND; auto. inversion ND; auto.
+    + subst e. simpl. split.
+      * intros x [Hx|Hx]; [left; auto | right; apply I2; auto].
+      * intros ND. inversion ND; subst. constructor; auto.
+Qed.
+
+(* the hypothesis of tg_failed_nacks_once on the outputs follows from distinct submitted ids *)
+Theorem tg_distinct_ids : forall n evs s' tr,
+  Forall tg_app_only evs ->
+  tg_steps O (tg_new_session TgDtls TgClient n) evs = (s', tr) ->
+  NoDup (tg_send_ids evs) -> NoDup (tg_dcon_ids (tg_outs tr)).
+Proof.
+  intros n evs s' tr A H ND.
+  destruct (tg_steps_dcon _ _ _ _ (or_introl (tg_new_J n)) A H) as [_ N]. auto.
+Qed.
+
+End NoDupIds.
+
 (* GnuTLS's contract turns "credentials do not match" into "no handshake call succeeds" *)
 Lemma tg_never_ok_of_mismatch : forall O cc sc,
   (forall k, or_hs O k = 0 -> tg_creds_match cc sc = true) ->
